@@ -85,6 +85,42 @@ def same_dict(a, b):
     return a == b
 
 
+def frame_except(row, old_row, field):
+    """every row of the table other than `row` has its `field` (all nested columns) unchanged"""
+    return True  # native replays compare whole states instead
+
+
+def same_item(m_new, m_old, key):
+    """the entries of two versions of the same dict slot under `key` are equal, field by field"""
+    return m_new[key] == m_old[key]
+
+
+def is_prefix(a, b):
+    """sequence a is a prefix of sequence b"""
+    return list(b[: len(a)]) == list(a)
+
+
+def is_str(x):
+    return isinstance(x, str)
+
+
+def is_none(x):
+    return x is None
+
+
+def is_int(x):
+    return isinstance(x, int) and not isinstance(x, bool)
+
+
+def as_str(x):
+    """the string inside a value known to be a str (identity natively)"""
+    return x
+
+
+def as_int(x):
+    return x
+
+
 def visited_contains(visited, k):
     return k in visited
 
@@ -96,6 +132,40 @@ def install_vocabulary(it):
     it.models[id(forall2)] = ModelFn("forall2", lambda it2, a, k: m_forall_n(it2, a[0], list(a[1:-1]), a[-1]))
     it.models[id(forall3)] = ModelFn("forall3", lambda it2, a, k: m_forall_n(it2, a[0], list(a[1:-1]), a[-1]))
     it.models[id(same_dict)] = ModelFn("same_dict", m_same_dict)
+    it.models[id(frame_except)] = ModelFn("frame_except", m_frame_except)
+    it.models[id(is_prefix)] = ModelFn("is_prefix", lambda it2, a, k: ops.mk("bool", z3.PrefixOf(ops._seq_term(a[0]), ops._seq_term(a[1]))))
+    it.models[id(same_item)] = ModelFn("same_item", m_same_item)
+    from .core import PYVAL
+
+    def tagtest(tag, pyt):
+        def fn(it2, a, k):
+            x = ops.force(a[0])
+            if isinstance(x, SV) and x.kind == "any":
+                return ops.mk("bool", getattr(PYVAL, "is_" + tag)(x.term))
+            if isinstance(x, SV):
+                return {"S": "str", "I": "int", "none": "-"}[tag] == x.kind
+            if tag == "none":
+                return x is None
+            if pyt is int:
+                return isinstance(x, int) and not isinstance(x, bool)
+            return isinstance(x, pyt)
+
+        return fn
+
+    def untag(acc, kind):
+        def fn(it2, a, k):
+            x = ops.force(a[0])
+            if isinstance(x, SV) and x.kind == "any":
+                return ops.mk(kind, getattr(PYVAL, acc)(x.term))
+            return x
+
+        return fn
+
+    it.models[id(is_str)] = ModelFn("is_str", tagtest("S", str))
+    it.models[id(is_none)] = ModelFn("is_none", tagtest("none", type(None)))
+    it.models[id(is_int)] = ModelFn("is_int", tagtest("I", int))
+    it.models[id(as_str)] = ModelFn("as_str", untag("sv", "str"))
+    it.models[id(as_int)] = ModelFn("as_int", untag("iv", "int"))
     it.attr_models[("NS", "__any__")] = None
 
 
@@ -122,6 +192,36 @@ def m_same_dict(it, a, k):
         return ops.mk("bool", x.same_as(y))
     e = ops.eq_term(it, x, y)
     return e if isinstance(e, bool) else ops.mk("bool", e)
+
+
+def m_frame_except(it, a, k):
+    from .heap import sel, sto
+
+    row, old_row, field = a
+    if not (isinstance(row, Row) and isinstance(old_row, Row)):
+        raise Unsupported("frame_except needs rows")
+    pre = f"{row.prefix}.{field}"
+    conj = []
+    for c in row.world.columns_under(pre):
+        cur = row.world.get(c)
+        old = old_row.world.get(c)
+        conj.append(cur == sto(old, row.idx, sel(cur, row.idx)))
+    return ops.mk("bool", z3.And(conj)) if conj else True
+
+
+def m_same_item(it, a, k):
+    from .heap import key_terms, sel
+
+    m_new, m_old, key = a
+    if not (isinstance(m_new, MapRef) and isinstance(m_old, MapRef)):
+        raise Unsupported("same_item needs dict slots")
+    kt = key_terms(key, m_new.spec.arity)
+    conj = []
+    for c in m_new.world.columns_under(m_new.prefix):
+        if c.endswith(".#dom") and c == m_new.prefix + ".#dom":
+            continue
+        conj.append(sel(m_new.world.get(c), list(m_new.keys) + kt) == sel(m_old.world.get(c), list(m_old.keys) + kt))
+    return ops.mk("bool", z3.And(conj)) if conj else True
 
 
 def m_forall(it, a, k):
@@ -243,7 +343,23 @@ def truth_of_quant(it, q: QuantVal):
     """A QuantVal reached a boolean position in exec mode (positive polarity)."""
     ctx = it.ctx
     if ctx.mode == "assume":
-        ctx.add_universal(q.roles, q.body, q.name)
+        # Evaluate the body NOW, once, on placeholder keys: the hypothesis speaks about the state
+        # at this moment (columns are captured as terms); instances are substitutions.
+        ph = [ctx.fresh_term(INT, f"ph_{r}") for r in q.roles]
+        n0 = len(ctx.pc)
+        prev = ctx.suppress_index
+        ctx.suppress_index = True
+        try:
+            templ = q.body(*ph)
+        finally:
+            ctx.suppress_index = prev
+        side = ctx.pc[n0:]
+        templ = z3.And([templ] + side) if side else templ
+
+        def inst(*ks, _t=templ, _ph=ph):
+            return z3.substitute(_t, *[(p, k) for p, k in zip(_ph, ks)])
+
+        ctx.add_universal(q.roles, inst, q.name)
         return True
     if ctx.mode == "assert":
         ks = []
@@ -251,7 +367,11 @@ def truth_of_quant(it, q: QuantVal):
             kk = ctx.fresh_term(INT, f"sk_{r}")
             ctx.add_index_term(r, kk)
             ks.append(kk)
+        ctx.skolem_count = getattr(ctx, "skolem_count", 0) + 1
         goal = q.body(*ks)
+        if it.formula_mode:
+            # positive position inside a formula: forall k. P(k)  ==  P(sk) for a fresh sk
+            return goal
         n = getattr(ctx, "clause_name", "clause")
         ctx.quant_ord = getattr(ctx, "quant_ord", 0) + 1
         ctx.oblige(f"{n}.forall{ctx.quant_ord}", goal, kind=getattr(ctx, "clause_kind", "post"))
@@ -295,10 +415,7 @@ def snapshot_value(v, wmap, memo):
         w = wmap.get(id(v.world))
         return v.with_world(w) if w is not None else v
     if isinstance(v, SeqVal):
-        s = SeqVal(v.elem_kind, v.term, v.pytype)
-        if hasattr(v, "split_src"):
-            s.split_src = v.split_src
-        return s
+        return SeqVal(v.elem_kind, v.term, v.pytype)
     if isinstance(v, list):
         return [snapshot_value(x, wmap, memo) for x in v]
     if isinstance(v, tuple):
